@@ -336,6 +336,15 @@ class C13:
             groups.append(g)
         # bodies just above 10 000 000 bytes (the crate's documented default message size limit) and above 2^24:
         # decoded by the implementation only (the model is not run on 20 MB of hex); oracle = length and CRC-32
+        for j, (kind, level) in enumerate([("gzip", 6), ("zlib", 9), ("raw", 9), ("gzip", 9)]):
+            data = bytes(8_000_000) if j < 3 else bytes(16_877_216)
+            d = raw_deflate(data, level)
+            enc = d if kind == "raw" else (zlib_wrap(d, data) if kind == "zlib" else gzip_wrap(d, data)[0])
+            hsr = [(b"Content-Encoding", TOKEN_OF[kind])]
+            g = Group("ratio%d" % j, "huge-ratio", {"headers": [[a.hex(), b.hex()] for a, b in hsr], "data": None, "data_len": len(data), "data_crc": zlib.crc32(data),
+                                                  "layers": ["%s level %d of %d zero bytes (%d:1)" % (kind, level, len(data), len(data) // max(1, len(enc)))]})
+            g.add("decode", "DECODE %d %s %s" % (tree, hdrs_field(hsr), hx(enc)), {"nocmp": True})
+            groups.append(g)
         for j, (size, kinds) in enumerate([(10_000_001, ["gzip"]), (10_000_001, ["zlib"]), (10_000_001, ["raw", "gzip"])] if tier == "quick" else
                                           [(10_000_001, ["gzip"]), (10_000_001, ["zlib"]), (10_000_001, ["raw", "gzip"]), (16_777_217, ["gzip", "zlib"]), (10_000_000, ["raw"])]):
             data = (b"0123456789abcdef" * 4096)[:65521] * (size // 65521 + 1)
@@ -552,6 +561,18 @@ class C15:
                 outer, _ = encode_layer(rng, "gzip", enc[:c])
                 g.add("truncated-inner", "DECODE %d %s %s" % (tree, hdrs_field([(b"Content-Encoding", tok + b", gzip")]), hx(outer)), {"cut": c})
             groups.append(g)
+        for k3, size in enumerate([16_777_216, 16_877_216] if tier == "quick" else [8_388_608, 16_777_216, 16_877_216, 33_554_432]):
+            content = bytes(size)
+            for kind in ("gzip", "zlib"):
+                d = raw_deflate(content, 6)
+                enc = gzip_wrap(d, content)[0] if kind == "gzip" else zlib_wrap(d, content)
+                hs = [(b"Content-Encoding", TOKEN_OF[kind])]
+                g = Group("hg%d%s" % (k3, kind), "damage-huge-" + kind, {"kind": kind, "data": ".", "enc": enc.hex(), "layer": "%s of %d zero bytes" % (kind, size), "hlen": None})
+                for c in [len(enc) - 1, len(enc) - 2, len(enc) - 4, len(enc) - 8, len(enc) - 9, len(enc) - 40]:
+                    g.add("truncated", "DECODE %d %s %s" % (tree, hdrs_field(hs), hx(enc[:c])), {"cut": c, "nocmp": True})
+                for pos in range(len(enc) - (8 if kind == "gzip" else 4), len(enc)):
+                    g.add("field", "DECODE %d %s %s" % (tree, hdrs_field(hs), hx(enc[:pos] + bytes([enc[pos] ^ 0x01]) + enc[pos + 1:])), {"pos": pos, "v": enc[pos] ^ 0x01, "nocmp": True})
+                groups.append(g)
         # the overlap of the two `deflate` formats: a level-0 zlib stream `78 01 | 01 FE FE 01 01 | content | adler`
         # read as bare deflate is a stored block of 257 bytes followed by whatever content[255..] spells
         for k2 in range(n_for(tier, 1, 6)):
